@@ -84,7 +84,7 @@ def body_volume(case):
         out.append(Violation(f"{tag}/not-grounded", f"F({u0.tolist()}) = {f(u0)!r}"))
     # one-dimensional margins are the identity
     for i in range(d):
-        mi = margin(lambda v: float(F(np.array(v, dtype=float))), [i], d)
+        mi = margin(F, [i], d)  # the copula object itself, as LevyCopulaModel passes it (margin reuses one buffer)
         val = float(mi(np.array([u[i]])))
         if abs(val - u[i]) > 1e-12 * abs(u[i]):
             out.append(Violation(f"{tag}/margin-is-not-the-identity", f"margin {i} at {u[i]}: {val!r}; {detail}"))
@@ -92,7 +92,7 @@ def body_volume(case):
     # two-dimensional margins of the 3-d copulas are again 2-increasing
     if case["sub"] is not None:
         I = case["sub"]
-        mI = margin(lambda v: float(F(np.array(v, dtype=float))), I, d)
+        mI = margin(F, I, d)
         aa, bb = a[I], b[I]
         cs = [float(mI(np.array([aa[i] if p == 0 else bb[i] for i, p in enumerate(ps)]))) for ps in itertools.product([0, 1], repeat=2)]
         sc = sum(abs(c) for c in cs)
@@ -271,7 +271,11 @@ def body_calls(case):
     shared = build_copula(cspec)
     for i, u in enumerate(case["calls"]):
         arr = np.array(u, dtype=float)
-        got = float(shared(arr.copy()))
+        given = arr.copy()
+        got = float(shared(given))
+        if not np.array_equal(given, arr, equal_nan=True):
+            return [Violation(f"C11/{cspec['type']}/call-modifies-its-argument",
+                              f"call #{i}: argument {u} came back as {given.tolist()}; case={case}")]
         want = float(build_copula(cspec)(arr.copy()))
         if got != want and not (math.isnan(got) and math.isnan(want)):
             return [Violation(f"C11/{cspec['type']}/value-depends-on-earlier-calls",
@@ -291,19 +295,19 @@ SUBCHECKS = [
                   "zero / infinite upper side, magnitudes over 12 decades: volume >= 0, F = 0 when an argument is 0, "
                   "1-margins = identity, 2-margins of 3-d copulas 2-increasing; non-trivial = mixed orthants, infinite "
                   "side, eta end point or d=3",
-             strategy=strat_volume, budget={"quick": 3000, "thorough": 60000}),
+             strategy=strat_volume, budget={"quick": 9000, "thorough": 60000}),
     SubCheck("clayton-conditional-distribution", body_cond, classify_cond,
              rule="Clayton (2-d) conditional distribution: values in [0,1], non-decreasing on 8 drawn points of either "
                   "sign over 10 decades, limits 0 and 1, stated inverse inverts it in both orders (outside the jump of "
                   "F at 0)",
-             strategy=strat_cond, budget={"quick": 1500, "thorough": 30000}),
+             strategy=strat_cond, budget={"quick": 4500, "thorough": 30000}),
     SubCheck("clayton-mixed-derivative", body_deriv, classify_deriv,
              rule="x_first_derivative(u) vs Richardson-extrapolated central mixed finite difference of F times prod(u), "
                   "d in {2,3}, all orthants",
-             strategy=strat_deriv, budget={"quick": 600, "thorough": 10000}),
+             strategy=strat_deriv, budget={"quick": 1800, "thorough": 10000}),
     SubCheck("one-object-many-calls", body_calls, classify_calls,
              rule="one copula object evaluated on a generated sequence of 2..6 argument vectors of dimension 2, 3 or 4 "
                   "(with zero / infinite entries) against a fresh object per call: bitwise equal; non-trivial = at least "
                   "two different dimensions",
-             strategy=strat_calls, budget={"quick": 2000, "thorough": 30000}, shards={"quick": 16, "thorough": 16}),
+             strategy=strat_calls, budget={"quick": 6000, "thorough": 30000}, shards={"quick": 16, "thorough": 16}),
 ]
